@@ -17,6 +17,7 @@ pub fn info() -> PropInfo {
         rule: "proptest in a build with the library's mock_salts feature (process-wide SALTS queue cleared and refilled at the top of every case; cases run sequentially inside each worker process): claims with the textual-hazard string class boosted (, : [ \" \\ runs of spaces, in values and nested names), full-range f64, non-BMP x strategy x salt queue (number of disclosures + 0..3 spare) x format x {HS256, EdDSA, ES256} x decoys. Oracle: queue shrinks by exactly one salt per disclosure and emitted salts are the queue prefix in order; two runs from equal queues give byte-identical disclosures, payloads (decoys off) and whole strings (HS256/EdDSA); C05 structure oracle (reconstruction == claims) and issue->present->verify == C01 view. Non-trivial: >= 1 disclosure. Distinct: hash of the case JSON.",
         assumptions: &["byte equality with Python's json.dumps is not asserted (the property only demands that the spacing is harmless); the interop tool itself cannot be built offline"],
         needs_mock: true,
+        rounds: 2,
     }
 }
 
